@@ -268,6 +268,27 @@ func genC18(out *caseWriter, seed uint64, n int, args []string) error {
 			in = strings.Replace(in, ";files=", ";first="+strings.Join(first, "|")+";files=", 1)
 			out.add(fmt.Sprintf("C18y-%d-%d-%d", seed, g, q), "C18.fault", in)
 		}
+		if g == 1 {
+			// one journal of more than 4 MiB per run (sizes at which an implementation may switch to another write
+			// path: seeded change C18d-large-file-streamed-write streamed journals above 4 MiB through a buffered writer
+			// whose last flush error was dropped): cuts inside the last partial 4096-byte block of the formatted
+			// text, at its end, in the middle
+			body := genC18File(r, false)
+			reps := (4<<20)/len(body) + 1 + r.intn(40)
+			tmp := workTemp("knutverif-c18gen-")
+			p := filepath.Join(tmp, "big.knut")
+			os.WriteFile(p, []byte(strings.Repeat(body, reps)), 0o644)
+			nw, ok := c18Formatted(p)
+			os.RemoveAll(tmp)
+			if ok {
+				n := len(nw)
+				for q, lim := range []int{n - 1, n - 1 - r.intn(n%4096+1), n / 4096 * 4096, n/4096*4096 + r.intn(n%4096+1), n / 2, n, n + 10} {
+					in := c18EncodeP("rlimit", lim, false, []int{0, 1}[q%2], []string{"big.knut"}, []string{body})
+					in = strings.Replace(in, ";files=", fmt.Sprintf(";big=%d;files=", reps), 1)
+					out.add(fmt.Sprintf("C18b-%d-%d-%d", seed, g, q), "C18.fault", in)
+				}
+			}
+		}
 		if rodir && g%8 == 0 {
 			out.add(fmt.Sprintf("C18r-%d-%d", seed, g), "C18.fault", c18Encode("rodir", 0, names, contents))
 		}
@@ -327,6 +348,12 @@ func obsC18(in string) string {
 			panic(err)
 		}
 		orig["real"] = true
+	}
+	if reps, _ := strconv.Atoi(kv["big"]); reps > 0 {
+		// big=<n>: the journal is the given text repeated n times (several megabytes)
+		for i := range files {
+			files[i][1] = strings.Repeat(files[i][1], reps)
+		}
 	}
 	for _, f := range files {
 		p := filepath.Join(dir, f[0])
@@ -451,7 +478,11 @@ func obsC18(in string) string {
 		if parses[i] {
 			p = "1"
 		}
-		details = append(details, fmt.Sprintf("%s^%s^%s^%s", f[0], p, hex.EncodeToString([]byte(news[i])), strings.Join(ops[f[0]], ",")))
+		nw := hex.EncodeToString([]byte(news[i]))
+		if kv["big"] != "" {
+			nw = fmt.Sprintf("#%d", len(news[i]))
+		}
+		details = append(details, fmt.Sprintf("%s^%s^%s^%s", f[0], p, nw, strings.Join(ops[f[0]], ",")))
 	}
 	left := 0
 	ents, _ := os.ReadDir(dir)
